@@ -454,12 +454,25 @@ def rule_depth(ctx, rep: Report, rid="S2"):
     prog = ctx.prog
     fn = prog.func(f"{TI}/helpers.py", "instantiate_type")
     rec = []
+    lazy: List[Tuple[str, ast.AST]] = []
     for f in ast.walk(fn):
         if isinstance(f, ast.FunctionDef):
-            selfcalls = [c for c in ast.walk(f) if isinstance(c, ast.Call) and isinstance(c.func, ast.Name) and c.func.id == f.name]
-            loops = [l for l in ast.walk(f) if isinstance(l, ast.For) and (".instantiations" in unparse(l.iter) or ".template_params" in unparse(l.iter))]
-            if selfcalls and loops:
+            # the function refers to itself (a call, or its own name handed to map / filter) and ranges over the template arguments
+            selfcalls = [c for c in ast.walk(f) if isinstance(c, ast.Name) and c.id == f.name and isinstance(c.ctx, ast.Load)]
+            loops = [l for l in ast.walk(f) if isinstance(l, (ast.For, ast.comprehension)) and (".instantiations" in unparse(l.iter) or ".template_params" in unparse(l.iter))]
+            loops += [c for c in ast.walk(f) if isinstance(c, ast.Call) and isinstance(c.func, ast.Name) and c.func.id in ("map", "filter") and len(c.args) == 2
+                      and (".instantiations" in unparse(c.args[1]) or ".template_params" in unparse(c.args[1]))]
+            if selfcalls and loops and f is not fn:
                 rec.append(f.name)
+                # every sibling argument is visited: the recursion is not consumed lazily by a short-circuiting aggregator
+                for c in ast.walk(f):
+                    if isinstance(c, ast.Call) and isinstance(c.func, ast.Name) and c.func.id in ("any", "all", "next") and c.args \
+                            and isinstance(c.args[0], (ast.GeneratorExp, ast.Call)) and not (isinstance(c.args[0], ast.Call) and unparse(c.args[0].func) in ("list", "tuple", "sorted")) \
+                            and any(isinstance(x, ast.Name) and x.id == f.name for x in ast.walk(c.args[0])):
+                        lazy.append((f.name, c))
+                    if isinstance(c, ast.BoolOp) and sum(1 for v in c.values if any(isinstance(x, ast.Name) and x.id == f.name for x in ast.walk(v))) >= 1 \
+                            and len(c.values) > 1 and any(isinstance(x, ast.Call) and isinstance(x.func, ast.Name) and x.func.id == f.name for v in c.values[1:] for x in ast.walk(v)):
+                        lazy.append((f.name, c))
             wl = [w for w in ast.walk(f) if isinstance(w, ast.While) and any(
                 isinstance(c, ast.Call) and isinstance(c.func, ast.Attribute) and c.func.attr in ("pop", "popleft") for c in ast.walk(w))]
             if wl and any(".instantiations" in unparse(w) for w in wl):
@@ -478,6 +491,12 @@ def rule_depth(ctx, rep: Report, rid="S2"):
                 f"return at line(s) {[r.lineno for r in early]} precedes the call of the recursive rewrite: a test that looks "
                 f"only at the type's own name / first-level arguments decides 'nothing to substitute' for "
                 f"std::vector<std::pair<T,int>>", f"{TI}/helpers.py:{(early[0].lineno if early else fn.lineno)}")
+    if rec:
+        rep.add(rid, "instantiate_type:the rewrite visits every sibling template argument", not lazy,
+                "; ".join(f"{nm}: `{unparse(c)[:60]}` (line {c.lineno})" for nm, c in lazy[:2]) +
+                ": the recursive rewrite is consumed by a short-circuiting `any` / `all` / `or` over a lazy iterator, so it stops at the first argument "
+                "for which it reports success - in std::pair<K, V> nested one level down, V keeps the template parameter's name",
+                f"{TI}/helpers.py:{lazy[0][1].lineno if lazy else fn.lineno}")
     rep.add(rid, "instantiate_type:template arguments are rewritten at every nesting depth", bool(rec),
             "the rewrite of template arguments iterates over the first level of `typename.instantiations` only "
             "(no recursion, no worklist): a parameter nested deeper, e.g. std::vector<std::vector<T>>, is never "
@@ -1586,6 +1605,24 @@ def rule_simultaneous_substitution(ctx, rep: Report, rid="S12"):
                 rep.add(rid, f"simultaneous:{f.name}:a node is rewritten or descended into, not both", not bad,
                         f"`{v}.{stores[0].attr}` is stored at line {bad[0][0] if bad else 0} and `{f.name}({v})` descends into the same node at line "
                         f"{bad[0][1] if bad else 0} on the same path: the replacement text is scanned for template parameters again", f"{mi.rel}:{loop.lineno}")
+            # (a') node-first walkers: the function rewrites the node it was given (`p.name = ...`) or descends into that node's
+            #      children (`for c in p.<attr>: f(c)`) - the two on different paths (other arm of the `if`, or a return after the store)
+            for loop in [l for l in walk_no_nested(f) if isinstance(l, ast.For) and isinstance(l.target, ast.Name)
+                         and isinstance(l.iter, ast.Attribute) and isinstance(l.iter.value, ast.Name) and l.iter.value.id in ps]:
+                pv = loop.iter.value.id
+                rec = [c for c in ast.walk(loop) if isinstance(c, ast.Call) and isinstance(c.func, ast.Name) and c.func.id == f.name
+                       and any(isinstance(a, ast.Name) and a.id == loop.target.id for a in c.args)]
+                stores = [s_ for s_ in walk_no_nested(f) if isinstance(s_, ast.Attribute) and isinstance(s_.ctx, ast.Store)
+                          and isinstance(s_.value, ast.Name) and s_.value.id == pv and not any(s_ is x for x in ast.walk(loop))]
+                if not rec or not stores:
+                    continue
+                n += 1
+                lg = set(guards_of(loop, f, include_exits=True))
+                bad = [s_.lineno for s_ in stores if s_.lineno < loop.lineno
+                       and not any((t, not pol) in lg for t, pol in guards_of(s_, f, include_exits=True))]
+                rep.add(rid, f"simultaneous:{f.name}:the node handed in is rewritten or its children are visited, not both", not bad,
+                        f"`{pv}.{stores[0].attr}` is stored at line {bad[0] if bad else 0} and the loop at line {loop.lineno} then descends into `{pv}.{loop.iter.attr}` "
+                        f"on the same path: what was just put there is scanned for template parameters again", f"{mi.rel}:{loop.lineno}")
             # (b) consumers of a lazy walker
             for loop in [l for l in walk_no_nested(f) if isinstance(l, ast.For) and isinstance(l.target, ast.Name) and isinstance(l.iter, ast.Call)
                          and isinstance(l.iter.func, ast.Name) and l.iter.func.id in gens]:
